@@ -20,27 +20,43 @@ CONSTANTS Sessions,          \* e.g. {"asn4", "asn2"}
           Msgs,              \* records [id, blk, mp, taw]
           SessDep,           \* set of blk whose decoding depends on the session
           KeyIncludesSession,\* TRUE = intended; FALSE = the cache is keyed on the raw bytes only (C19 finding)
+          KeyByAddress,      \* FALSE = intended: the key is the session OBJECT (kept alive by the cache); TRUE = the key is
+                             \* the address of that object, which a later session may be given once the first is closed
           MaxLen
 
-VARIABLES prev,   \* <<blk, session>> of the cached block, or <<"none", "none">>
-          hist,   \* sequence of <<session, msg id>> received so far (script for the harness)
-          last    \* [got, want] of the last Receive
+VARIABLES prev,   \* <<blk, session, address, incarnation>> of the cached block, or <<"none", "none", "none", 0>>
+          hist,   \* sequence of <<session, msg id>> received or <<"swap", "s1-s2">> so far (script for the harness)
+          last,   \* [got, want] of the last Receive
+          addr,   \* where the object of each session lives
+          inc     \* how many times each session was closed and opened again
 
-vars == <<prev, hist, last>>
+vars == <<prev, hist, last, addr, inc>>
 
 Decode(blk, s) == IF blk \in SessDep THEN <<blk, s>> ELSE <<blk, "any">>
 
 Receive(s, m) ==
     /\ Len(hist) < MaxLen
-    /\ LET hit == prev[1] = m.blk /\ (KeyIncludesSession => prev[2] = s)
+    /\ LET hit == prev[1] = m.blk /\ (KeyIncludesSession => IF KeyByAddress THEN prev[3] = addr[s] ELSE (prev[2] = s /\ prev[4] = inc[s]))
            got == IF hit THEN Decode(prev[1], prev[2]) ELSE Decode(m.blk, s)
        IN /\ last' = [got |-> got, want |-> Decode(m.blk, s)]
           /\ prev' = IF m.mp \/ m.taw THEN (IF m.taw THEN prev ELSE <<"none", "none">>)
-                     ELSE IF hit THEN prev ELSE <<m.blk, s>>
+                     ELSE IF hit THEN prev ELSE <<m.blk, s, addr[s], inc[s]>>
     /\ hist' = Append(hist, <<s, m.id>>)
+    /\ UNCHANGED <<addr, inc>>
 
-Init == prev = <<"none", "none">> /\ hist = <<>> /\ last = [got |-> <<"none", "any">>, want |-> <<"none", "any">>]
-Next == \E s \in Sessions, m \in Msgs : Receive(s, m)
+\* sessions come and go: s1 and s2 are closed, and the sessions opened in their place (same parameters as before, new objects)
+\* are given each other's memory.  Nothing is decoded: the cache is as it was.
+Swap(s1, s2) ==
+    /\ Len(hist) < MaxLen /\ s1 # s2
+    /\ addr' = [addr EXCEPT ![s1] = addr[s2], ![s2] = addr[s1]]
+    /\ inc' = [inc EXCEPT ![s1] = @ + 1, ![s2] = @ + 1]
+    /\ hist' = Append(hist, <<"swap", <<s1, s2>>>>)
+    /\ UNCHANGED <<prev, last>>
+
+Init == /\ prev = <<"none", "none", "none", 0>> /\ hist = <<>> /\ last = [got |-> <<"none", "any">>, want |-> <<"none", "any">>]
+        /\ addr = [s \in Sessions |-> s] /\ inc = [s \in Sessions |-> 0]
+SwapPairs == {<<"asn4", "asn2">>, <<"asn4", "asn4a">>} \cap (Sessions \X Sessions)
+Next == (\E s \in Sessions, m \in Msgs : Receive(s, m)) \/ (\E p \in SwapPairs : Swap(p[1], p[2]))
 Spec == Init /\ [][Next]_vars
 
 HistoryFree == last.got = last.want
